@@ -2,6 +2,7 @@ package gedcom
 
 import (
 	"fmt"
+	"sync"
 )
 
 // DateNode represents a DATE node.
@@ -15,13 +16,17 @@ type DateNode struct {
 	// should not be parsed again.
 	alreadyParsed   bool
 	parsedDateRange DateRange
+
+	// parseMutex protects alreadyParsed and parsedDateRange. The same date is
+	// often asked for its range by several goroutines (Jobs > 1).
+	parseMutex sync.Mutex
 }
 
 // NewDateNode creates a new DATE node.
 func NewDateNode(value string, children ...Node) *DateNode {
 	return &DateNode{
 		newSimpleNode(TagDate, value, "", children...),
-		false, DateRange{},
+		false, DateRange{}, sync.Mutex{},
 	}
 }
 
@@ -32,6 +37,9 @@ func (node *DateNode) DateRange() (dateRange DateRange) {
 	}
 
 	// Parsing dates is very expensive. Cache them.
+	node.parseMutex.Lock()
+	defer node.parseMutex.Unlock()
+
 	if node.alreadyParsed {
 		return node.parsedDateRange
 	}
